@@ -7,7 +7,7 @@
    occur in between.  Statements only; lemmas in Proofs/AsyncGenP.v.  Every schema, every declared type, binary /
    binary-LE / compact. *)
 From PV Require Import Proofs.HeaderP Proofs.PrefixP.
-From PVGen Require Import Gen GenSpec GenAsync ErrSpec Proofs.TotalGenP Proofs.AsyncGenP Proofs.AsyncErrGenP.
+From PVGen Require Import Gen GenSpec GenAsync ErrSpec Proofs.TotalGenP Proofs.AsyncGenP Proofs.AsyncErrGenP Proofs.AsyncFuelP.
 Open Scope Z_scope.
 
 (* the result depends on the stream only through the bytes it delivers *)
@@ -67,7 +67,7 @@ Theorem C12_gen_async_no_panic : forall S p f t s st, gen_decode_async S p f t s
 Proof. exact (fun S p f t => NP_gen_decode_async S p f t). Qed.
 Print Assumptions C12_gen_async_no_panic.
 
-(* (gen-B; superseded by C12_gen_error below, kept because C09 / C02 use it)
+(* (gen-B; superseded by C12_gen_error below -- both missing parts are now proved -- kept because C09 / C02 use it)
    FULL STATEMENT (C12_gen_error):  forall l, gen_decode S p f t (mkS l rcx) = Err e ->
                                      exists e', gen_decode_async S p f t (mkS l rcx) = Err e' /\ e' <> EOutOfFuel.
    Proved part: the inputs the property names -- "prefixes of valid input: async sees EOF": when the stream ends
@@ -101,13 +101,72 @@ Print Assumptions C12_gen_error_partial.
    every successful read of a non-void value lowers phi by at least 1 and no header raises it, so an asynchronous
    decoder that runs past a count the in-memory reader rejected ends with an error or STARVED (phi = 0) -- and the
    Stop header every struct / union still owes cannot be read from a starved state. *)
-Theorem C12_gen_error : forall S p f t l rcx e,
+Theorem C12_gen_error_anyfuel : forall S p f t l rcx e,
   elems_ok S = true -> is_message S t = true ->
   idle rcx -> Z.of_nat (length l) < 2 ^ 63 ->
   gen_decode S p f t (mkS l rcx) = Err e ->
   exists e', gen_decode_async S p f t (mkS l rcx) = Err e'.
 Proof. exact gen_async_error. Qed.
+Print Assumptions C12_gen_error_anyfuel.
+
+(* ---------- fuel adequacy (lemmas in Proofs/AsyncFuelP.v) ----------
+   The fuel of the model decoders bounds recursion depth and loops; the emitted code does not count.  fuel_bound n = n + 2
+   (ErrSpec.v).  With fuel >= fuel_bound |input| the asynchronous model decoder NEVER returns the out-of-fuel outcome:
+   on any byte string, for every declared type, from any reader state (a stale pending bool value included), all three
+   protocols -- and never panics, and a value leaves at most the input unread.  Every level of recursion costs a byte
+   (field header, container header); every container-loop iteration costs a byte or the one pending bool (potential
+   phi); every struct-loop iteration costs a byte. *)
+Theorem C12_gen_fuel_adequate : forall S p f t l rcx,
+  elems_ok S = true -> ty_elems_ok S t = true -> (fuel_bound (length l) <= f)%nat ->
+  gen_decode_async S p f t (mkS l rcx) <> Err EOutOfFuel /\
+  (forall st, gen_decode_async S p f t (mkS l rcx) <> Panic st) /\
+  (forall v s', gen_decode_async S p f t (mkS l rcx) = Ok (v, s') -> (blen s' <= length l)%nat).
+Proof. exact gen_async_fuel_adequate. Qed.
+Print Assumptions C12_gen_fuel_adequate.
+
+(* ... the asynchronous skipper likewise *)
+Theorem C12_gen_fuel_adequate_skip : forall p f ty l rcx,
+  (fuel_bound (length l) <= f)%nat -> PV.Thrift.Skip.askip p f ty (mkS l rcx) <> Err EOutOfFuel.
+Proof. exact askip_fuel_adequate. Qed.
+Print Assumptions C12_gen_fuel_adequate_skip.
+
+(* ... and above the bound the fuel is not observable at all: same outcome for any two adequate fuels *)
+Theorem C12_gen_fuel_irrelevant : forall S p f1 f2 t l rcx,
+  elems_ok S = true -> ty_elems_ok S t = true ->
+  (fuel_bound (length l) <= f1)%nat -> (fuel_bound (length l) <= f2)%nat ->
+  gen_decode_async S p f2 t (mkS l rcx) = gen_decode_async S p f1 t (mkS l rcx).
+Proof. exact gen_async_fuel_irrelevant. Qed.
+Print Assumptions C12_gen_fuel_irrelevant.
+
+(* the runner's entry point (fuel |input| + 80) is adequate *)
+Theorem C12_gen_async_top_total : forall S p t l,
+  elems_ok S = true -> ty_elems_ok S t = true ->
+  gen_decode_async_top S p t l <> Err EOutOfFuel /\ forall st, gen_decode_async_top S p t l <> Panic st.
+Proof. exact gen_async_top_adequate. Qed.
+Print Assumptions C12_gen_async_top_total.
+
+(* C12_gen_error at full strength: under adequate fuel both errors are errors of the DECODERS -- neither the in-memory
+   error (C09_gen_total_fuel) nor the asynchronous one is the model's fuel exhaustion *)
+Theorem C12_gen_error : forall S p f t l rcx e,
+  elems_ok S = true -> is_message S t = true ->
+  idle rcx -> Z.of_nat (length l) < 2 ^ 63 -> (fuel_bound (length l) <= f)%nat ->
+  gen_decode S p f t (mkS l rcx) = Err e ->
+  e <> EOutOfFuel /\ exists e', gen_decode_async S p f t (mkS l rcx) = Err e' /\ e' <> EOutOfFuel.
+Proof. exact gen_async_error_strong. Qed.
 Print Assumptions C12_gen_error.
+
+(* value and error direction in one statement, under adequate fuel: the same value and stopping position (C12_gen_value),
+   or two genuine errors *)
+Theorem C12_gen_outcome : forall S p f t l rcx,
+  elems_ok S = true -> is_message S t = true ->
+  idle rcx -> Z.of_nat (length l) < 2 ^ 63 -> (fuel_bound (length l) <= f)%nat ->
+  match gen_decode S p f t (mkS l rcx) with
+  | Ok (v, s') => gen_decode_async S p f t (mkS l rcx) = Ok (v, erase s')
+  | Err e => e <> EOutOfFuel /\ exists e', gen_decode_async S p f t (mkS l rcx) = Err e' /\ e' <> EOutOfFuel
+  | Panic _ => True
+  end.
+Proof. exact gen_async_outcome. Qed.
+Print Assumptions C12_gen_outcome.
 
 Theorem C12_gen_error_top : forall S p t l e,
   elems_ok S = true -> is_message S t = true -> Z.of_nat (length l) < 2 ^ 63 ->
